@@ -9,7 +9,8 @@ RULE = ("explicit statement-level schedules on real Cache handles sharing one SQ
         "or under a handle mutex (atomic), with release, injected statement failure, and clock advances of 29999/30000/30001 ms, "
         "for new and already-known packages and for two keys (same name, two registries); every boolean result and the final "
         "claim columns are compared with the Lean small-step model, and the mutual-exclusion property itself is evaluated on "
-        "the implementation's results. quick: all schedules of a bounded alphabet up to length 5 (sampled) + random; "
+        "the implementation's results; plus REAL concurrency: 2-16 OS threads, one connection each, released by a barrier on the "
+        "same key (new and known packages): exactly one must win. quick: all schedules of a bounded alphabet up to length 5 (sampled) + random; "
         "non-trivial = at least two attempts on one key; distinct by event-kind sequence")
 ASSUMPTIONS = ["one global monotone clock (virtual clock hook); clock skew between processes is not modelled",
                "a statement issued under contention either runs atomically later or fails busy with no effect (SQLite)",
@@ -109,5 +110,22 @@ def streams(ctx):
     def nt(c, o):
         t = c.get("tag")
         return bool(t) and sum(1 for k in t if k in ("q.enter", "q.atomic")) >= 2
+    # real OS threads, one SQLite connection each, released together by a barrier: whatever interleaving the machine
+    # produces must have exactly one winner (c09_mutex says so for ALL interleavings of the model's steps)
+    rc = [{"req": vlib.line("q.reset"), "tag": None}]
+    nr = 60 if ctx["tier"] == "quick" else 3000
+    for i in range(nr):
+        n = [2, 3, 4, 8, 16][i % 5]
+        rc.append({"req": vlib.line("q.race", str(n), ["npm", "jsr"][i % 2], f"pkg{i // 3}", "T" if (i // 5) % 2 else "F"), "tag": ("race", n, (i // 5) % 2, i)})
+
+    def derive_r(cs, impl):
+        der = []
+        for i, (c, o) in enumerate(zip(cs, impl)):
+            if c["req"].startswith("q.race") and not (o.startswith("won=1 ") and o.endswith("err=0")):
+                f = vlib.decode_line(c["req"])
+                der.append({"req": vlib.line("ml.settle"), "index": i, "history": [cs[0]["req"], c["req"]],
+                            "check": (lambda out, o=o, f=f: ("violation", f"{f[1]} threads claimed {f[2]}/{f[3]} at the same instant: {o} (exactly one must win)"))})
+        return der
+    race = Stream("real-threads", rc, nontrivial=lambda c, o: c.get("tag") is not None, derive=derive_r, model_eq=lambda i, m: True, shrinkable=False, nt_on_impl=True)
     return [Stream("claim-schedules", cases, nontrivial=nt, derive=derive, shrinkable=False,
-                   model_eq=lambda i, m: gen_cache.canon(i) == gen_cache.canon(m))]
+                   model_eq=lambda i, m: gen_cache.canon(i) == gen_cache.canon(m)), race]
